@@ -285,6 +285,7 @@ class TerminalElement(Element):
     def deepcopy(self) -> TerminalElement:
         """Copy and remove parent."""
         _copy = self.__class__(self.data)
+        _copy.raw = self.raw
         return _copy
 
 
@@ -306,7 +307,8 @@ class Comment(TerminalElement):
     """Represent HTML comments"""
 
     def render(self, **kwargs) -> str:  # type: ignore[override]
-        return f"<!--{self.data}-->"
+        # (the source text is kept for what is only treated as a comment: ``<!x>``)
+        return self.raw or f"<!--{self.data}-->"
 
 
 class Pi(TerminalElement):
@@ -455,6 +457,20 @@ class HtmlToAst(HTMLParser):
             # an unknown marked section keyword, e.g. ``<![x]>``:
             # treat it as a bogus comment, as python >= 3.13.4 does
             return self.parse_bogus_comment(i)
+
+    def parse_bogus_comment(self, i: int, report: int = 1) -> int:
+        # ``<!x>`` and ``</3>`` are reported as comments: keep their source text
+        j = super().parse_bogus_comment(i, report)
+        if j > i and report:
+            self.struct.last()[-1].raw = self.rawdata[i:j]
+        return j
+
+    def parse_endtag(self, i: int) -> int:
+        if self.cdata_elem is None and self.rawdata.startswith("</>", i):
+            # ignored by html.parser, but it can also be Markdown text (`` `<>x</>` ``)
+            self.handle_data("</>")
+            return i + 3
+        return super().parse_endtag(i)
 
     def handle_starttag(self, name: str, attr):
         """When found an opening tag then nest it onto the tree."""
